@@ -311,7 +311,7 @@ def r5(idx, rep):
     # normal path (a path that was not frozen is not left frozen: later components of the same line still run)
     unfreezers = {"Last._decide_match", "Equality._do_when"}
     seen = set()
-    for s in K.attr_stores(idx, {"is_frozen", "_freeze_path"}):
+    for s in K.attr_stores(idx, {"is_frozen", K.names(idx)["frozen"]}):
         fi, v = s["fi"], s["value"]
         if fi.qual in ("CsvPath.__init__",) or (fi.name == "is_frozen"):
             continue
